@@ -176,6 +176,12 @@ class C18(Property):
             cs(enc=True, chunked=True),
             # window edges
             cs(tol=5, toff=5), cs(tol=5, toff=-5), cs(tol=5, toff=6), cs(tol=5, toff=-6),
+            # the timestamp over its integer domain, correctly signed: ms instead of s, 2^31, 2^32, 2^40, 2^53, 2^62, the
+            # int64 extremes, ~292 years ahead (where a Duration in ns saturates), 0, negative
+            cs(tsfmt="ms"), cs(tsraw="20000000000"), cs(tsraw=str(2 ** 31)), cs(tsraw=str(2 ** 32 + 1)), cs(tsraw=str(2 ** 40)),
+            cs(tsraw=str(2 ** 53 + 1)), cs(tsraw=str(2 ** 62)), cs(tsraw=str(2 ** 63 - 1)), cs(tsraw=str(-2 ** 63)),
+            cs(tsraw="9160000000000000000"), cs(tsraw="0"), cs(tsraw="-1"), cs(toff=292 * 31536000), cs(toff=293 * 31536000),
+            cs(toff=-293 * 31536000), cs(tsfmt="plus"), cs(tsfmt="zeros"), cs(tsfmt="space"), cs(tol=5, toff=5, tsfmt="plus"),
             # secret attribute that is not base64 / spans several RSA blocks / made by go-zero's own encrypter
             cs(rsa="notb64"), cs(secpad=200), cs(secpad=150, gzenc=True), cs(gzenc=True, enc=True),
             # lying Content-Length on an encrypted body, response under an unusable key, flush/hijack through the cryption writer
@@ -371,8 +377,12 @@ class C18(Property):
         elif cls == "time_huge":
             # beyond 2^53 (float64 rounds), up to 2^62; and the same negated
             k = rng.choice(["exp", "exp", "nbf", "iat"])
+            year = 31536000
             raw[k] = rng.choice(["9007199254740993", "4611686018427387904", "1e18", "-9007199254740993", "-4e18",
-                                 "4294967296", "2147483648", "1e15", "999999999999999.5"])
+                                 "4294967296", "2147483648", "1e15", "999999999999999.5", "2147483647", "2147483649",
+                                 "4294967295", "4294967297", "1099511627776", "9007199254740991", "9007199254740992",
+                                 str(now * 1000), str(now * 1000 + 999), str(now + year), str(now - year), "1", "-1", "0",
+                                 str(now + 292 * year), str(now + 293 * year), "8900000000000000000", "-8900000000000000000"])
         elif cls == "exp_numstring":
             claims["exp"] = str(now + 1000)
         elif cls == "huge_claim":
@@ -478,10 +488,11 @@ class C18(Property):
                "body_after", "fp_empty", "hdrfmt_nospace", "hdrfmt_spaces", "hdrfmt_trailing", "hdrfmt_junk",
                "hdrfmt_dupsig_good_last", "hdrfmt_dupsig_bad_last", "hdrfmt_upper",
                "clen_more", "clen_less", "flush", "gzenc", "secpad", "secpad_gz", "sbody_tail", "sbody_head", "sbody_prefix", "sbody_prefix", "sbody_prefix", "sbody_suffix",
-               "limit_none", "tol_negative", "tol_fraction"]
+               "limit_none", "tol_negative", "tol_fraction", "ts_boundary", "ts_boundary", "ts_boundary", "ts_boundary",
+               "clen_huge"]
     CRYPT_MUTS = ["none", "none", "none", "cipher_trunc", "cipher_lastbyte", "cipher_wrongkey", "cipher_dropblock",
                   "bodyraw_nl", "bodyraw_notb64", "bodyraw_short", "chunked", "aeskey_bad", "limit_small", "plain_body",
-                  "clen_more", "clen_less", "nobody_badkey", "flush", "chunked_empty", "limit_none"]
+                  "clen_more", "clen_less", "nobody_badkey", "flush", "chunked_empty", "limit_none", "clen_huge"]
 
     def _apply(self, rng, c, mut):
         r = c["req"]
@@ -492,6 +503,31 @@ class C18(Property):
             r["toff"] = rng.choice([tol + 1, -tol - 1, tol + 2, -tol - 2, 10 ** 6, -10 ** 6])
         elif mut == "toff_in":
             r["toff"] = rng.choice([max(tol - 1, 0), -max(tol - 1, 0)])
+        elif mut == "ts_boundary":
+            # the client-supplied timestamp over its whole integer domain, CORRECTLY SIGNED (the signature covers the
+            # text sent): only |now - t| <= tolerance may pass, whatever the machine arithmetic does with t
+            year = 31536000
+            pick = rng.choice(["abs", "abs", "abs", "rel", "fmt"])
+            if pick == "abs":
+                r["tsraw"] = rng.choice([
+                    "0", "1", "-1", "2147483647", "2147483648", "2147483649", "4294967295", "4294967296", "4294967297",
+                    "20000000000", "1099511627776", "9007199254740991", "9007199254740992", "9007199254740993",
+                    "4611686018427387904", "9223372036854775807", "-9223372036854775808", "9223372036854775806",
+                    "9223372036854775807", "-9223372036854775807", "9160000000000000000", "11013000000", "11014000000",
+                    "1e18", "1E9", "", "abc", "0x7fffffff", "+0", "-0", "00", " 0", "9223372036854775808", "-9223372036854775809",
+                    "18446744073709551616", "1.0"])
+            elif pick == "rel":
+                r["toff"] = rng.choice([tol + 1, -tol - 1, tol, -tol, year, -year, 10 * year, 291 * year, 292 * year, 293 * year,
+                                        -292 * year, -293 * year, 2 ** 31, -2 ** 31, 2 ** 32 + 1, 9223372036 - 1790000000,
+                                        9223372037 - 1790000000, 2 ** 33, 2 ** 40])
+            else:
+                r["tsfmt"] = rng.choice(["ms", "ms", "plus", "zeros", "space"])
+                r["toff"] = rng.choice([0, 0, tol, -tol, tol + 1])
+        elif mut == "clen_huge":
+            # a Content-Length far beyond the body (and beyond int32): the size limit answers before any allocation
+            r["clenadd"] = rng.choice([2 ** 31, 2 ** 32 + 1, 2 ** 40, 2 ** 53, 2 ** 62, 2 ** 63 - 200000])
+            if len(r.get("body", "")) == 0:
+                r["body"] = "x"
         elif mut == "tsraw":
             r["tsraw"] = rng.choice(["abc", "", "12.5", " 123", "1e9", "99999999999999999999", "9223372036854775807",
                                      "-9223372036854775808", "9223372036854775803", "0", "-1", "+5", "0x10", "1_000"])
@@ -637,6 +673,8 @@ class C18(Property):
         c["wrap"] = rng.random() < 0.3
         if c.get("tol", 0) < 0:
             c.pop("tolms", None)
+        if c["req"].get("clenadd", 0) > 10 ** 6 and c.get("limit", 0) < 0:
+            c.pop("limit")                       # never let the handler allocate what the header announces
         if not crypt and rng.random() < 0.12:
             now = 1700000000
             sec = "chain-secret"
@@ -653,6 +691,8 @@ class C18(Property):
             c.pop(k, None)
         c["kind"] = "eng"
         r = c["req"]
+        if r.get("clenadd", 0) > 10 ** 6:
+            r.pop("clenadd")                     # the engine's max-bytes middleware (413) sits in front of the gates
         if r["method"] in ("get", "TRACE"):      # the router only registers the 7 standard methods
             r["method"] = "PATCH"
         m = r["method"]
@@ -1001,7 +1041,7 @@ class C18(Property):
                                             cbool(so["bindok"]), clist(reqs))
 
     SRV_SECRETS = ["secret-one-0001", "secret-two-0002", "secret-three-03"]
-    SRV_MUTS = ["none", "none", "none", "sbody_tail", "sbody_prefix", "toff_edge", "toff_out", "tsraw", "smethod", "spath", "squery", "sbody", "stoff", "skey",
+    SRV_MUTS = ["none", "none", "none", "sbody_tail", "sbody_prefix", "ts_boundary", "ts_boundary", "toff_edge", "toff_out", "tsraw", "smethod", "spath", "squery", "sbody", "stoff", "skey",
                 "rsa_garbage", "hdr_missing", "hdr_nosig", "hdr_nofp", "sig_flip", "sig_other", "ctype_other", "body_after",
                 "hdrfmt_dupsig_bad_last", "cipher_lastbyte", "fp_unknown"]
     JWT_OK_CLS = ("valid", "auth_lower", "auth_upper", "auth_noprefix", "exp_next", "nbf_now", "iat_now", "siglast",
